@@ -422,3 +422,121 @@ theorem wsOpt'_ws (c : Ch) : ∀ y ∈ (hexBody.wsOpt' c).1, isHexWs y = true :=
     | (rcases hy with h | h <;> subst h <;> decide)
     | (rcases hy with h | h | h <;> subst h <;> decide)
     | exact hy.elim
+
+/-! ## literal strings -/
+
+/-- the scanner's `last_slash` is stale: it points strictly before the previous byte -/
+def Stale (ls : Option Nat) (pos : Nat) : Prop := ∀ p, ls = some p → p + 1 < pos
+
+theorem notEsc {ls : Option Nat} {pos : Nat} (hs : Stale ls pos) :
+    (match ls with | some p => p + 1 == pos | none => false) = false := by
+  cases ls with
+  | none => rfl
+  | some p => have := hs p rfl; simp; omega
+
+theorem lsNext {ls : Option Nat} {pos : Nat} (hs : Stale ls pos) :
+    (match ls with | some p => if p + 1 == pos then none else some pos | none => some pos) = some pos := by
+  cases ls with
+  | none => rfl
+  | some p =>
+    have := hs p rfl
+    have : ¬ (p + 1 == pos) = true := by simp; omega
+    simp [this]
+
+/-- one step of the scanner on an ordinary byte / an unescaped parenthesis / a backslash -/
+theorem litLoop_step (b : UInt8) (t : Bytes) (pos : Nat) (ls : Option Nat) (depth : Nat) (acc : Bytes)
+    (hs : Stale ls pos) :
+    litLoop (b :: t) pos ls depth acc =
+      if b == 40 then litLoop t (pos + 1) none (depth + 1) (b :: acc)
+      else if b == 41 then
+        (if depth - 1 == 0 then some (acc.reverse, pos + 1) else litLoop t (pos + 1) none (depth - 1) (b :: acc))
+      else if b == 92 then litLoop t (pos + 1) (some pos) depth (b :: acc)
+      else litLoop t (pos + 1) ls depth (b :: acc) := by
+  have hne : ∀ p, ls = some p → (p + 1 == pos) = false := by
+    intro p hp; have := hs p hp; simp; omega
+  conv => lhs; unfold litLoop
+  cases ls with
+  | none => simp
+  | some p => simp [hne p rfl]
+
+/-- one step under a pending escape (the previous byte was an unescaped backslash at `pos - 1`) -/
+theorem stale_none (k : Nat) : Stale none k := by intro p hp; cases hp
+theorem stale_some {p k : Nat} (h : p + 1 < k) : Stale (some p) k := by intro q hq; cases hq; exact h
+
+theorem litLoop_escaped (x : UInt8) (t : Bytes) (pos : Nat) (depth : Nat) (acc : Bytes) :
+    ∃ ls2, Stale ls2 (pos + 2) ∧
+      litLoop (x :: t) (pos + 1) (some pos) depth acc = litLoop t (pos + 2) ls2 depth (x :: acc) := by
+  conv => enter [1, ls2, 2, 1]; unfold litLoop
+  by_cases h40 : x = 40
+  · subst h40; exact ⟨some pos, stale_some (by omega), by simp⟩
+  · by_cases h41 : x = 41
+    · subst h41; exact ⟨some pos, stale_some (by omega), by simp⟩
+    · by_cases h92 : x = 92
+      · subst h92; exact ⟨none, stale_none _, by simp⟩
+      · exact ⟨some pos, stale_some (by omega), by simp [h40, h41, h92]⟩
+
+/-- the scanner of `RawLiteralString` on a balanced body followed by the closing parenthesis:
+    it returns exactly the body and stops just after the ')' — whatever follows. -/
+theorem litLoop_balanced (body : Bytes) (d : Nat) (ctx : Bytes) (pos : Nat) (ls : Option Nat) (acc : Bytes)
+    (hs : Stale ls pos) (hb : litBalanced body d = true) :
+    litLoop (body ++ 41 :: ctx) pos ls (d + 1) acc = some (acc.reverse ++ body, pos + body.length + 1) := by
+  fun_induction litBalanced body d generalizing pos ls acc with
+  | case1 d =>
+    have hd : d = 0 := by simpa using hb
+    subst hd
+    simp [litLoop_step _ _ _ _ _ _ hs]
+  | case2 x t d ih =>
+    simp only [List.cons_append]
+    rw [litLoop_step _ _ _ _ _ _ hs]
+    simp only [show ((92 : UInt8) == 40) = false by decide, show ((92 : UInt8) == 41) = false by decide,
+      beq_self_eq_true, if_true, Bool.false_eq_true, if_false]
+    obtain ⟨ls2, hst, h2⟩ := litLoop_escaped x (t ++ 41 :: ctx) pos (d + 1) (92 :: acc)
+    rw [h2, ih _ _ _ hst hb]
+    simp [Nat.add_assoc] <;> omega
+  | case3 d => simp at hb
+  | case4 t d ih =>
+    simp only [List.cons_append]
+    rw [litLoop_step _ _ _ _ _ _ hs]
+    simp only [beq_self_eq_true, if_true]
+    rw [ih _ _ _ (stale_none _) hb]
+    simp [Nat.add_assoc] <;> omega
+  | case5 t d ih =>
+    simp only [Bool.and_eq_true, bne_iff_ne, ne_eq] at hb
+    obtain ⟨hd, hb⟩ := hb
+    obtain ⟨d', rfl⟩ : ∃ d', d = d' + 1 := ⟨d - 1, by omega⟩
+    simp only [List.cons_append]
+    rw [litLoop_step _ _ _ _ _ _ hs]
+    have h2 : ¬ (d' + 1 + 1 - 1 == 0) = true := by simp
+    simp only [show ((41 : UInt8) == 40) = false by decide, beq_self_eq_true, if_true, Bool.false_eq_true,
+      if_false, h2]
+    have : d' + 1 + 1 - 1 = d' + 1 - 1 + 1 := by omega
+    rw [this, ih _ _ _ (stale_none _) hb]
+    simp [Nat.add_assoc] <;> omega
+  | case6 b t d h92a h92b h40 h41 ih =>
+    have n92 : ¬ b = 92 := by
+      intro h
+      cases t with
+      | nil => exact h92b h rfl
+      | cons x t' => exact h92a x t' h rfl
+    have e40 : (b == 40) = false := by simp; exact h40
+    have e41 : (b == 41) = false := by simp; exact h41
+    have e92 : (b == 92) = false := by simp [n92]
+    simp only [List.cons_append]
+    rw [litLoop_step _ _ _ _ _ _ hs]
+    simp only [e40, e41, e92, Bool.false_eq_true, if_false]
+    have hs' : Stale ls (pos + 1) := by intro p hp; have := hs p hp; omega
+    rw [ih _ _ _ hs' hb]
+    simp [Nat.add_assoc] <;> omega
+
+/-- **`litstring_roundtrip`**: every balanced (modulo backslash escapes) body between parentheses,
+    followed by anything at all, is returned verbatim with the cursor just after the closing ')'. -/
+theorem litstring_roundtrip (body ctx : Bytes) (hb : litBalanced body 0 = true) :
+    rawLitString ([40] ++ body ++ [41] ++ ctx) 0 = (.ok ⟨body, 0, body.length + 2⟩, body.length + 2) := by
+  unfold rawLitString
+  have hp : peek ([40] ++ body ++ [41] ++ ctx) 0 = some 40 := rfl
+  simp only [hp, bne_self_eq_false, Bool.false_eq_true, if_false]
+  have hd : List.drop (0 + 1) ([40] ++ body ++ [41] ++ ctx) = body ++ 41 :: ctx := by simp
+  rw [hd, litLoop_balanced body 0 ctx (0 + 1) none [] (stale_none _) hb]
+  simp [Nat.add_comm] <;> omega
+
+example : litBalanced [97, 40, 98, 41, 92, 41, 99] 0 = true := by decide
